@@ -120,14 +120,17 @@ Definition uuid_parse (s : string) : list Z := unhex_pairs (undash s).
 (** what differs between the pinned tree and the repaired tree *)
 Record behaviour := mkBehaviour {
   dup_frame_reidentifies : bool;   (* createDataFrame has no duplicate check: an existing frame gets a new entity_id *)
-  seed_uses_entropy : bool         (* createId seeds from std::random_device as well as from time(0) *)
+  seed_uses_entropy : bool;        (* createId seeds from std::random_device as well as from time(0) *)
+  fork_copies_engine : bool        (* the engine is a function-local static: a child forked after the first createId
+                                      call inherits the engine's state and repeats the parent's ids *)
 }.
-Definition code_today : behaviour := mkBehaviour true false.
-Definition repaired : behaviour := mkBehaviour false true.
+(** the pinned tree (every defect) and the fully repaired tree *)
+Definition code_today : behaviour := mkBehaviour true false true.
+Definition repaired : behaviour := mkBehaviour false true false.
 
 (** THE SWITCH: which behaviour the library under test has.  Set to [repaired] (field by field) by the
     commit that lands the corresponding [fix:] in /repo. *)
-Definition current_behaviour : behaviour := repaired.
+Definition current_behaviour : behaviour := mkBehaviour false true true.
 
 (** [static boost::mt19937 ran(static_cast<uint32>(std::time(0)))]: the seed is the second, modulo 2^32.
     Repaired: the seed sequence is the second followed by the words drawn from the entropy source
@@ -192,7 +195,11 @@ Inductive op :=
 | OCreateOther (t e : Z) (k : kind) (names : list string)
     (* the file is closed; another process started at second [t] with entropy [e] opens it read-write and
        creates top-level blocks / sections with these names; the first process reopens in its old mode *)
-| ONewSession (t e : Z) (rw : bool).      (* a new process takes the file over *)
+| ONewSession (t e : Z) (rw : bool)       (* a new process takes the file over *)
+| OFork (t e : Z) (k : kind) (names : list string).
+    (* like OCreateOther, but the other process is a child FORKED by the process that has the file open (after
+       it has drawn at least the file's id): unless the library re-seeds in the child (then: second [t], entropy
+       [e]) the child starts with a copy of the parent's engine *)
 
 Definition opt_nat_eqb (a b : option nat) : bool :=
   match a, b with
@@ -354,6 +361,19 @@ Section IdModel.
       (st2, ok1 && ok2)
     end.
 
+  (** another process [child] works on the (closed) file read-write, then the owner reopens it in its old mode
+      with its own engine state untouched *)
+  Definition other_session (st : state) (child : proc) (k : kind) (names : list string) : state * bool :=
+    if negb (kind_eqb k KBlock || kind_eqb k KSection) then (st, false) else
+    let me := st_proc st in
+    let mode := st_rw st in
+    let (st1, ok) := create_all (with_rw (with_proc st child) true) k names in
+    (with_rw (with_proc st1 me) mode, ok).
+
+  (** the engine a forked child starts with *)
+  Definition fork_child (st : state) (t e : Z) : proc :=
+    if fork_copies_engine beh then st_proc st else new_proc t e.
+
   Definition step (st : state) (o : op) : state * bool :=
     match o with
     | OCreate k parent name ref => create st k parent name ref
@@ -371,13 +391,9 @@ Section IdModel.
       | None => (st, false)
       end
     | OReopen rw => (with_rw st rw, true)
-    | OCreateOther t e k names =>
-      if negb (kind_eqb k KBlock || kind_eqb k KSection) then (st, false) else
-      let me := st_proc st in
-      let mode := st_rw st in
-      let (st1, ok) := create_all (with_rw (with_proc st (new_proc t e)) true) k names in
-      (with_rw (with_proc st1 me) mode, ok)
+    | OCreateOther t e k names => other_session st (new_proc t e) k names
     | ONewSession t e rw => (with_rw (with_proc st (new_proc t e)) rw, true)
+    | OFork t e k names => other_session st (fork_child st t e) k names
     end.
 
   Definition run_from (st : state) (h : list op) : state := fold_left (fun s o => fst (step s o)) h st.
@@ -390,6 +406,7 @@ Section IdModel.
     | [] => []
     | OCreateOther t e _ _ :: r => (t, e) :: later_procs r
     | ONewSession t e _ :: r => (t, e) :: later_procs r
+    | OFork t e _ _ :: r => (t, e) :: later_procs r
     | _ :: r => later_procs r
     end.
   Definition procs_of (t e : Z) (h : list op) : list (Z * Z) := (t, e) :: later_procs h.
@@ -402,6 +419,16 @@ Section IdModel.
       an id among their first [n]? *)
   Definition procs_common (t : Z) (es : list Z) (n : nat) : bool :=
     negb (nodupb (flat_map (fun e => first_ids (seed_of beh t e) n) es)).
+
+  (** the fork experiment (separate files): a process seeded at (t, e) draws [pre] >= 1 ids, forks the children
+      [cs] (second and entropy each would re-seed with), every child draws [kc] ids, the parent [kp] more *)
+  Definition fork_ids (t e : Z) (pre : nat) (cs : list (Z * Z)) (kc kp : nat) : list string :=
+    let s := seed_of beh t e in
+    map (supply s) (seq 0 (pre + kp)) ++
+    flat_map (fun c => if fork_copies_engine beh then map (supply s) (seq pre kc)
+                       else first_ids (seed_of beh (fst c) (snd c)) kc) cs.
+  Definition fork_common (t e : Z) (pre : nat) (cs : list (Z * Z)) (kc kp : nat) : bool :=
+    negb (nodupb (fork_ids t e pre cs kc kp)).
 End IdModel.
 
 (** a concrete engine for the model driver and the non-vacuity examples: the words spell the seed and the
